@@ -857,8 +857,8 @@ pub fn run(run: &mut Run) {
     run.rule = "programs of up to 40 ops over {New, Append, Extend, FromIter, Copy, Add, AddAssign, Query} on 4 slots for 10 state types; after every step the count equals the model's, at every query mean / variance / CI are within the rounding tolerance of the exact statistics of the model multiset (proportion / quantile states: equal to the component-wise sums, ci bit-identical), queries leave every Debug image unchanged and repeat identically, an empty operand is neutral; all 65 merge-tree shapes over 1..6 chunks x 3 chunkings (with empty chunks) x both operand orders; rayon and thread-scope reductions with 1, 2, 7, 16 threads; non-trivial = a program with a merge of two multi-element states, a merge with an empty operand, or a query between updates".into();
     crate::meanref::selftest_into(run);
     let (cases, shards, max_ops) = match run.tier {
-        crate::engine::Tier::Quick => (6_000u32, 16usize, 40usize),
-        crate::engine::Tier::Thorough => (200_000, 64, 60),
+        crate::engine::Tier::Quick => (30_000u32, 32usize, 40usize),
+        crate::engine::Tier::Thorough => (2_000_000, 256, 60),
     };
     let seed = run.seed_for("programs", 0);
     run.par(shards, |shard, obs| {
